@@ -57,7 +57,11 @@ def handle (j : J) : Except String J := do
     pure (J.mk [("accepted", J.ofBytes s.accepted), ("send_buf", J.ofBytes s.sendBuf), ("closed", J.bool s.closed),
                 ("close_events", J.ofNat s.closeEvents), ("offered", J.ofNat s.offered),
                 ("offered_after_fatal", J.ofNat s.offeredAfterClose),
-                ("shut_wr", J.arr (s.shutLog.map fun e => J.ofNats [e.1.length, e.2.length]))])
+                ("shut_wr", J.arr (s.shutLog.map fun e => J.ofNats [e.1.length, e.2.length])),
+                -- the state after every operation (every prefix of the history), for the over-time theorem
+                ("trace", J.arr ((List.range ops.length).map fun i =>
+                    let t := runWith guard (ops.take (i + 1))
+                    J.ofNats [t.accepted.length, t.sendBuf.length, if t.closed then 1 else 0]))])
   else if part = "M" then
     -- several connections sharing the deferred sender: one view per connection (Model/SendPath.lean Part C)
     let ops ← (← j.array "ops").mapM parseMOp
